@@ -173,6 +173,15 @@ def check_newton(case):
         cat.quiet(s.solve_jump_conditions)
         second = jump_conditions('second solve on the same object: ')
         o.close('second solve on the same object: same shocked state', second, first, 1e-6)
+    # ... and the EOS objects have public setters of their own: after one, the next solve must satisfy the jump conditions of the EOS as it is now
+    # (the initial energy e(rho0, P0) of a stiffened gas depends on rho_inf and c_s)
+    if case['eos']['cls'] == 'stiffened_gas_eos':
+        f = 0.9 + 0.09 * ((first[0] * 1e3) % 1.0)
+        s.eos.set_new_reference_density(float(s.eos.rho_inf) * f)
+        s.set_new_solver_initial_guess(list(first))
+        cat.quiet(s.solve_jump_conditions)
+        jump_conditions('after eos.set_new_reference_density: ')
+        o.label('eos-mutated-after-construction')
     o.nontrivial = case['eos']['cls'] != 'ideal_gas_eos' or abs(case['gamma'] - 5 / 3) > 1e-9
     return o
 
